@@ -56,8 +56,25 @@ BASE = dict(
 # repaired rule and flags the situation), most specific first
 DEFECTS = ['close_paused_writer', 'stale_reader', 'double_feed',
            'resume_while_paused', 'link_order', 'drain_close', 'late_eof']
-LABELS_B = {'emit', 'emiteof', 'emitclose', 'deliver', 'redirb', 'allow'}
-LABELS_C = {'redirc', 'feed', 'feedeof', 'deliver', 'kclose', 'drain'}
+# monitor clauses a defect situation can account for (a crash of the
+# connection takes everything after it along)
+CRASH = {'no-crash', 'nothing-lost', 'eof-complete', 'waiters-resolve',
+         'exit-after-output', 'exit-report'}
+EXPLAINS = {
+    'close_paused_writer': CRASH | {'eof-rule', 'no-write-after-eof'},
+    'stale_reader': CRASH | {'eof-rule', 'backpressure', 'in-order-once'},
+    'double_feed': CRASH,
+    'resume_while_paused': CRASH | {'backpressure'},
+    'link_order': {'in-order-once', 'nothing-lost'},
+    'drain_close': {'waiters-resolve'},
+    'late_eof': {'eof-rule'},
+}
+
+
+def attribute(trigs, clause):
+    """the defect situation of the behaviour that accounts for the clause"""
+    return next((d for d in DEFECTS if d in trigs and clause in EXPLAINS[d]),
+                'none')
 
 
 def S(**kw):
@@ -159,11 +176,12 @@ def jobs_for(tier):
                           WithExit='FALSE' if q else 'TRUE'),
                  cases=True, workers=3 if q else 4))
     J.append(Job('cB2', S(InDT='{"x", "y"}', MaxN=1 if q else 2, MaxRedirB=2,
-                          TKinds='{"stream", "merge", "null", "file"}',
+                          TKinds='{"stream", "merge", "file"}' if q else
+                          '{"stream", "merge", "null", "file"}',
                           RESet='{TRUE}' if q else '{TRUE, FALSE}',
                           MaxAllowOps=1 if q else 2, MaxCollect=0 if q else 1,
                           W1=1 if q else 2, QH=1 if q else 2, QL=1 if q else 2,
-                          WithWait='TRUE', WithExit='TRUE'),
+                          WithWait='TRUE', WithExit='FALSE' if q else 'TRUE'),
                  cases=True, workers=3 if q else 6, heap='3g' if q else '6g'))
     J.append(Job('cB3', S(MaxN=2, TKinds='{"stream", "file"}', MaxRedirB=1,
                           WithBClose='TRUE', RESet='{TRUE}',
@@ -185,8 +203,9 @@ def jobs_for(tier):
     J.append(Job('sC1', S(HasB='FALSE', HasC='TRUE', OutDT='{"x", "y"}',
                           MaxN=2, SKinds='{"stream", "file"}' if q else
                           '{"stream", "file", "none"}',
-                          FileLens='{5}' if q else '{0, 2, 5}',
-                          WithDrain='TRUE', WithKClose='TRUE', MaxRedirC=2,
+                          FileLens='{8}' if q else '{0, 2, 8}',
+                          WithDrain='FALSE' if q else 'TRUE',
+                          WithKClose='TRUE', MaxRedirC=2,
                           SESet='{FALSE}' if q else '{TRUE, FALSE}'),
                  cases=True, workers=3 if q else 4, role='server'))
     J.append(Job('jA', S(**dict(JO, MaxN=3, TKinds='{"proc", "none"}',
@@ -384,16 +403,17 @@ class Replayer:
         rp = {'kind': 'case', 'job': name, 'case': case, 'consts': consts,
               'role': role, 'text': text}
         for clause, detail in res['violations']:
-            key = (clause, defect, role, half)
+            cause = attribute(trigs, clause)
+            key = (clause, cause, role, half)
             self.counters[key] = self.counters.get(key, 0) + 1
             if self.counters[key] > 2:
                 continue
-            sig = {'module': 'Process', 'clause': clause, 'defect': defect,
+            sig = {'module': 'Process', 'clause': clause, 'defect': cause,
                    'role': role, 'half': half, 'n': self.counters[key]}
-            if defect == 'none':
+            if cause == 'none':
                 sig['labels'] = [' '.join(map(str, l)) for l in res['labels']]
             ctx.violation(sig, f'{clause} [{name}/{role}] {detail}; defect '
-                               f'situation: {defect}; labels '
+                               f'situation: {cause} (met: {trigs}); labels '
                                f'{res["labels"]}', replay=rp)
         if res['divergences']:
             if defect != 'none':
@@ -401,6 +421,9 @@ class Replayer:
                 # defect of the pinned tree is in play the code cannot follow
                 # it step by step; the monitors still judge these cases
                 self.unmodelled[defect] = self.unmodelled.get(defect, 0) + 1
+                if os.environ.get('X03_DEBUG'):
+                    print('UNMODELLED', name, role, defect, res['divergences'][0],
+                          res['labels'])
             else:
                 ctx.divergence(f'{name}/{role}: {res["divergences"][0]} '
                                f'labels={res["labels"]}')
@@ -421,11 +444,9 @@ def mutants():
             return orig(self, datatype, writer)
         return feed_recv_buf
 
-    def eof_always(orig):
+    def eof_not_forwarded(orig):
         def eof_received(self):
-            for datatype in list(self._recv_eof):
-                self._recv_eof[datatype] = True
-            return orig(self)
+            return ap.SSHStreamSession.eof_received(self)
         return eof_received
 
     def no_backpressure(orig):
@@ -434,8 +455,8 @@ def mutants():
         return pause_feeding
     return [('feed_recv_buf drops the first buffered chunk', ap.SSHProcess,
              'feed_recv_buf', drop_buffered, ('cB1', 'cB2')),
-            ('EOF forwarded to targets although recv_eof=False', ap.SSHProcess,
-             'eof_received', eof_always, ('cB1', 'sB1')),
+            ('EOF of the channel not forwarded to the writers', ap.SSHProcess,
+             'eof_received', eof_not_forwarded, ('jA', 'jD')),
             ('pause_feeding does nothing (no back pressure)', ap.SSHProcess,
              'pause_feeding', no_backpressure, ('cB1', 'cB3', 'simB'))]
 
@@ -490,11 +511,11 @@ def do_replay_file(ctx, drv, path):
     print('divergences:', res['divergences'])
     print('violations:', res['violations'])
     trigs = res['trig'] or trigs_of(rp['case'])
-    defect = next((d for d in DEFECTS if d in trigs), 'none')
     half = ('B' if rp['consts']['HasB'] else '') + \
         ('C' if rp['consts']['HasC'] else '')
     for clause, detail in res['violations']:
-        ctx.violation({'module': 'Process', 'clause': clause, 'defect': defect,
+        ctx.violation({'module': 'Process', 'clause': clause,
+                       'defect': attribute(trigs, clause),
                        'role': rp['role'], 'half': half, 'n': 1}, detail,
                       replay=rp)
     ctx.count('replay')
